@@ -22,7 +22,7 @@ from hypothesis import strategies as st
 
 from vf import runner, seeds
 from vf.engine import Case, Failure, h
-from vf.project import Project
+from vf.project import Project, to_yaml
 
 ID = "C07"
 TECHNIQUE = "Hypothesis-generated projects x worker count x file->worker partition x completion order, with a harness-owned fork-per-worker executor; real process pool (library and CLI subprocess) as a second stage; oracle = sequential run on a fresh object, multiset of full records"
@@ -297,6 +297,13 @@ def check(case) -> Case:
             opts = ["--no-recursive"] if case.get("dir_target") and case.get("flat") else []
             if opts:
                 labels.append("--no-recursive")
+            alt = case.get("alt_config")
+            if alt:
+                # an explicitly named configuration file that says something else than the project's own .thailint.yaml (empty,
+                # or other thresholds): both runs must follow the named file, workers included
+                p.write("alt-config.yaml", {"empty": "# nothing configured here\n", "other": to_yaml({"nesting": {"max_nesting_depth": 1}, "srp": {"max_methods": 50}})}[alt])
+                opts = ["--config", "alt-config.yaml"] + opts
+                labels.append(f"explicit-config={alt}")
             r1 = runner.run_cli_sub([cmd, "--format", "json", *opts, *target], cwd=p.root)
             r2 = runner.run_cli_sub([cmd, "--format", "json", "--parallel", *opts, *target], cwd=p.root)
             labels.append(f"cmd={cmd}")
@@ -358,7 +365,8 @@ def cli_cells(seed):
     for i, cmd in enumerate(CLI_CMDS):
         for n in (15, 16, 17, 24, 65):
             cells.append({"kind": "cli", "cmd": cmd, "w": 8, "n": n, "langs": ["py", "ts", "rs", "js"], "per_file": 2, "fam_off": (i + seed) % 7,
-                          "dup": 3, "sty": 3, "order": list(range(n)), "dir_target": (i + n + seed) % 2 == 0, "flat": (i + n + seed) % 4 == 0})
+                          "dup": 3, "sty": 3, "order": list(range(n)), "dir_target": (i + n + seed) % 2 == 0, "flat": (i + n + seed) % 4 == 0,
+                          "alt_config": [None, "empty", None, "other"][(i + n // 2 + seed) % 4]})
     return cells
 
 
